@@ -34,7 +34,7 @@ class ContractInfo:
         self.assumed = assumed      # text of the assumption: the contract is used at call sites but NOT verified (trusted)
         self.local = local          # a summary that replaces calls only inside contracts that list it in `uses`
         self.kind = 'function' if target else ('const' if const else 'lemma')
-        self.use_at_calls = use_at_calls
+        self.use_at_calls = use_at_calls if not getattr(pycls, 'step', None) else False     # a loop-step contract is never a callee summary
         self.bounded = bounded
         self.module_name = pycls.__module__
         self.clauses = [n for n in vars(pycls) if n.startswith('post_')]
